@@ -50,6 +50,9 @@ def centres(rng, kind):
         m, k = int(rng.integers(3, 12)), int(rng.integers(3, 12))
         a = float(rng.choice([1.0, 2.0, 4.0]))
         pts = np.array([((i + 0.5 * (j % 2)) * a, j * a * np.sqrt(3) / 2) for i in range(m) for j in range(k)], float)
+    if kind in ("jitter", "hex") and rng.random() < 0.25:
+        # small units: a cell is 25 roundings (1e-3) wide, its area is below 1e-3
+        pts = pts * (0.0237 / (5.0 if kind == "jitter" else a))
     u = rng.random()
     if u < 0.3:
         pts = pts + rng.uniform(-50, 50, 2)
@@ -177,6 +180,8 @@ def run_case(case):
         R = [(round(float(p[0]), 3), round(float(p[1]), 3)) for p in P]
         if len(set(R)) != len(R):
             decisive = False
+        if np.any(np.abs((np.abs(P) * 1000.0) % 1.0 - 0.5) < 1e-6):
+            decisive = False        # a corner coordinate on a rounding tie: which neighbour it goes to is not specified
         cen = P.mean(axis=0)
         order = np.argsort(np.arctan2(P[:, 1] - cen[1], P[:, 0] - cen[0]))
         expected.append([R[i] for i in order])
